@@ -327,7 +327,10 @@ pub fn inputs_c06(r: &mut Rng, n: usize, tier: &str, out: &mut dyn Write) {
                     }
                     let sep = *r.pick(&["\t", " ", "  ", "\t\t", " \t "]);
                     let tail = *r.pick(&["\t# x", "", " # 1 Jan 1972", "\t#", " "]);
-                    txt.push_str(&format!("{}{}{}{}\n", ts0, sep, off, tail));
+                    // columns are white-space separated: a data line may be indented, and lines may end in CR LF
+                    let lead = *r.pick(&["", "", "", "", " ", "\t", "  ", " \t"]);
+                    let eol = *r.pick(&["\n", "\n", "\n", "\n", "\r\n"]);
+                    txt.push_str(&format!("{}{}{}{}{}{}", lead, ts0, sep, off, tail, eol));
                     probes.push(ts0);
                     ts0 += 86_400 * (1 + r.below(2000));
                     off += 1;
@@ -754,7 +757,26 @@ pub fn inputs_c16(r: &mut Rng, n: usize, _tier: &str, out: &mut dyn Write) {
         .clamp(DMIN, DMAX);
         let es = format!("{}:{}", dstr(e), ts);
         match r.below(10) {
-            0 if r.chance(1, 3) => {
+            0 if r.chance(1, 2) => {
+                // weekday in a DYNAMICAL target scale, or of an epoch held in one, close to the target's midnight:
+                // the civil day changes within microseconds (ET and TDB themselves differ by up to ~10 us per
+                // quarter century from 2000); aimed with the library's own conversion, judged by the closed forms
+                const ALL9: [&str; 9] = ["TAI", "TT", "UTC", "GPST", "GST", "BDT", "QZSST", "ET", "TDB"];
+                let dy = *r.pick(&["ET", "TDB"]);
+                let other = *r.pick(&ALL9);
+                let (src, tgt) = if r.chance(1, 2) { (dy, other) } else { (other, dy) };
+                // a midnight of the target calendar (its count runs from the reference date-time: noon for ET/TDB)
+                let day = (r.range_i64(-73_000, 73_000) as i128) * DAY + if tgt == "ET" || tgt == "TDB" { DAY / 2 } else { 0 };
+                let off = (if r.chance(1, 2) { 1 } else { -1 }) * match r.below(4) {
+                    0 => 400 + r.below(20_000) as i128,
+                    1 => 400 + r.below(200_000) as i128,
+                    2 => r.below(SEC as u64) as i128 + 400,
+                    _ => r.below((DAY / 2) as u64) as i128 + 400,
+                };
+                let t = s2e(&format!("{}:{}", dstr(day + off), tgt));
+                writeln!(out, "weekday_dyn {} {}", e2s(t.to_time_scale(s2ts(src))), tgt).unwrap();
+            }
+            0 if r.chance(1, 2) => {
                 // epochs HELD in ET or TDB
                 let dy = *r.pick(&["ET", "TDB"]);
                 let v = (r.range_i64(-3_600_000, 3_600_000) as i128) * DAY + r.below(DAY as u64) as i128;
@@ -1338,7 +1360,7 @@ pub fn exec(op: &str, a: &[&str]) -> Option<String> {
         // ---- C16
         "weekday" => Some(format!("ok {}", wd2i(s2e(a[0]).weekday()))),
         "weekday_utc" => Some(format!("ok {}", wd2i(s2e(a[0]).weekday_utc()))),
-        "weekday_ts" => Some(format!("ok {}", wd2i(s2e(a[0]).weekday_in_time_scale(s2ts(a[1]))))),
+        "weekday_ts" | "weekday_dyn" => Some(format!("ok {}", wd2i(s2e(a[0]).weekday_in_time_scale(s2ts(a[1]))))),
         "next" => oke(s2e(a[0]).next(i2wd(a[1].parse().unwrap()))),
         "prev" => oke(s2e(a[0]).previous(i2wd(a[1].parse().unwrap()))),
         "next_midnight" => oke(s2e(a[0]).next_weekday_at_midnight(i2wd(a[1].parse().unwrap()))),
